@@ -141,3 +141,59 @@ func verifC09Total(flat []*Field, a, b []string, i int) {
 		verifC09Total(flat, a, b, i+1)
 	}
 }
+
+// ---------------------------------------------------------------------------
+// The field comparators (C09)
+
+// parseNum is a pure function of its argument (regexp, strconv and math.Pow
+// inside are not modelled): parseNum_0 / parseNum_1 in specifications.
+//@ func parseNum(x string) (v float64, err error)
+//@   props C09
+//@   opt functional
+//@   trusted
+
+// numOrder: numbers before non-numbers, numerically, NaN after other numbers.
+//@ pure func numOrder(x float64, xok bool, y float64, yok bool) int =
+//@     (xok && yok) ? ((x < y || (!isNaN(x) && isNaN(y))) ? 0 - 1 : ((x > y || (isNaN(x) && !isNaN(y))) ? 1 : 0)) :
+//@     ((!xok && !yok) ? 0 : (xok ? 0 - 1 : 1))
+
+// The "alpha" comparator.
+//@ func init$1(a, b string) (r int)
+//@   props C09
+//@   ensures a < b ==> r < 0
+//@   ensures a == b ==> r == 0
+//@   ensures a > b ==> r > 0
+
+// The "num" comparator.
+//@ func init$2(a, b string) (r int)
+//@   props C09
+//@   ensures r == numOrder(parseNum_0(a), parseNum_1(a) == nil, parseNum_0(b), parseNum_1(b) == nil)
+
+// numOrder is a total preorder: reversing the arguments reverses the sign, and <= is transitive.
+//@ func verifC09Num(x, y, z float64, xo, yo, zo bool)
+//@   lemma
+//@   props C09
+//@   ensures (numOrder(x, xo, y, yo) < 0) <==> (numOrder(y, yo, x, xo) > 0)
+//@   ensures (numOrder(x, xo, y, yo) == 0) <==> (numOrder(y, yo, x, xo) == 0)
+//@   ensures numOrder(x, xo, y, yo) <= 0 && numOrder(y, yo, z, zo) <= 0 ==> numOrder(x, xo, z, zo) <= 0
+func verifC09Num(x, y, z float64, xo, yo, zo bool) {}
+
+// The comparator of a fixed value list: position in the list.
+//@ func ProjectionParser.makeProjection$2$1(a, b string) (r int)
+//@   props C09
+//@   requires forall k string :: has(fixedMap, k) ==> 0 <= fixedMap[k] <= 4611686018427387904
+//@   ensures r == (has(fixedMap, a) ? fixedMap[a] : 0) - (has(fixedMap, b) ? fixedMap[b] : 0)
+
+// The first-observation comparator: rank at first observation.
+//@ func ProjectionParser.makeProjection$4$1(a, b string) (r int)
+//@   props C09
+//@   requires field != nil && forall k string :: has(field.order, k) ==> 0 <= field.order[k] <= 4611686018427387904
+//@   ensures r == (has(field.order, a) ? field.order[a] : 0) - (has(field.order, b) ? field.order[b] : 0)
+
+// A difference of ranks is a total preorder.
+//@ func verifC09Rank(rx, ry, rz int)
+//@   lemma
+//@   props C09
+//@   ensures ((rx - ry) < 0) <==> ((ry - rx) > 0)
+//@   ensures (rx - ry) <= 0 && (ry - rz) <= 0 ==> (rx - rz) <= 0
+func verifC09Rank(rx, ry, rz int) {}
